@@ -28,7 +28,7 @@ func (r *rnd) intn(n int) int {
 	return int(r.u64() % uint64(n))
 }
 func (r *rnd) rng(lo, hi int) int { return lo + r.intn(hi-lo+1) }
-func (r *rnd) p(x float64) bool  { return float64(r.u64()>>11)/float64(1<<53) < x }
+func (r *rnd) p(x float64) bool   { return float64(r.u64()>>11)/float64(1<<53) < x }
 func (r *rnd) pick(xs ...int) int { return xs[r.intn(len(xs))] }
 
 // gen carries generator state for one case.
@@ -342,22 +342,22 @@ func (g *gen) txOp() Op {
 
 // profile weights the operation mix of the DB-level generator.
 type profile struct {
-	ops        [2]int
-	keys       [2]int
-	wWrite     int
-	wGet       int
-	wIter      int
-	wSnap      int
-	wSnapRead  int
-	wTx        int
-	wCompact   int
-	wReopen    int
-	wSleep     int
-	wSettle    int
-	wKeepIter  int
-	wStats     int
-	syncP      float64
-	maxMoves   int
+	ops             [2]int
+	keys            [2]int
+	wWrite          int
+	wGet            int
+	wIter           int
+	wSnap           int
+	wSnapRead       int
+	wTx             int
+	wCompact        int
+	wReopen         int
+	wSleep          int
+	wSettle         int
+	wKeepIter       int
+	wStats          int
+	syncP           float64
+	maxMoves        int
 	cmpBytewiseOnly bool
 }
 
